@@ -331,7 +331,8 @@ def filter_unique_points(points):
     unique_points : array, shape (n_unique_points, 2)
         Unique points.
     """
-    epsilon = 10.0 * EPSILON
+    # Tolerance relative to the magnitude of the coordinates
+    epsilon = 10.0 * EPSILON * max(1.0, np.max(np.abs(points)))
     unique_points = np.empty((len(points), 2))
     n_unique_points = 0
     for j in range(len(points)):
